@@ -283,9 +283,9 @@ CUT_AFTER = 3       # simulations a (collective, algorithm, layout, np class, co
 SLICE_S = 4.0       # a worker gives the rest of a crash-heavy piece back to the pool after this long
 
 
-def timeout_for(ncases, algo):
+def timeout_for(ncases, algo, grid="t"):
     """Generous (the machine is shared): only a genuine hang ever waits this long; deadlocks are reported by SimGrid at once."""
-    return min(30.0 + 0.1 * ncases * (25 if algo == "automatic" else 1), 400.0)
+    return min(30.0 + 0.1 * ncases * (25 if algo == "automatic" else 1), 60.0 if grid == "q" else 400.0)
 
 
 def bad_kind(b):
@@ -363,7 +363,7 @@ def run_piece(task):
         if guard > size0 + 10:
             raise common_exit2("C29: driver does not make progress on %s/%s (exit 2)" % (coll, algo))
         size = sum(b - a for a, b in pending)
-        res = go(pending, slow * timeout_for(size, algo))
+        res = go(pending, slow * timeout_for(size, algo, grid))
         if os.environ.get("C29_DEBUG"):
             common.log("run", coll, algo, layout, pending, "complete", res.complete, "inprog", res.inprog, "rc", res.rc,
                        "done", res.done, classify(res) if not res.complete else "")
